@@ -148,6 +148,15 @@ CHECKS = {
             "x readers, incl. callers overwriting their buffers).",
             "symnp shim (grounded by the sweep); codecs/containers are exact; <=12 elements per array; tfrec and Rust reader in thorough",
             "DESIGN.md 3/C01"),
+    "C15": ("mirx",
+            "MIR interpreter over rustc's MIR of the current rust/src (Kahn-network audit + one fair schedule per (items, threads, drop position)); z3 for the usize index steps and for the bit-vector equivalence of RustGenerator.to_dict with the Python decoder",
+            "The native reader's protocol is shown (on the MIR) to use only blocking SPSC channel operations, spawn and join, hence "
+            "to be schedule independent; its execution yields f(item k) as k-th result, exactly n results, no panic, no deadlock/"
+            "leak on (early) drop, <= T tasks in flight, for all n<=5 (8), T<=4 (6), every drop position.  z3 proves the index "
+            "arithmetic of ParallelMap::next and ShardProgress::next for all 64-bit values and the equality of the Python-side "
+            "re-typing with the Python reader for all bit patterns; a rebuilt extension is compared with the Python reader.",
+            "mpsc/thread library semantics; Kahn determinism; MIR closure-capture printing quirk; decoders' byte equality only by differential anchor",
+            "DESIGN.md 2.4, 3/C15, 7.2"),
 }
 
 PENDING_REASON = "check not built yet in this round (work in progress; see DESIGN.md section 3 for the planned encoding)"
